@@ -131,6 +131,25 @@ def run_case(lib, cfg):
                             getattr(L, "dtw_distances_ndim_matrix" + par)(M.ptr, n, lens[0], nd, O.ptr, C.byref(blk), stp)
                     calls += 2
                     O.free()
+                    if equal:
+                        # two collections (rows x columns) with different numbers of series: the first nr series
+                        # as rows, the first nc as columns; with the case's block where it fits, and without a block
+                        fn2 = getattr(L, ("dtw_distances_matrices" if nd == 1 else "dtw_distances_ndim_matrices") + par)
+                        for nr in range(1, n + 1):
+                            for nc in range(1, n + 1):
+                                blocks = [(0, 0, 0, 0)]
+                                if 0 < re <= nr and 0 < ce <= nc:
+                                    blocks.append((rb, re, cb, ce))
+                                for bl in blocks:
+                                    blk = native.DTWBlock(bl[0], bl[1], bl[2], bl[3], bool(cfg["triu"]))
+                                    length = L.dtw_distances_length(C.byref(blk), nr, nc)
+                                    O = native.Buf(max(length, 0))
+                                    if nd == 1:
+                                        fn2(M.ptr, nr, lens[0], M.ptr, nc, lens[0], O.ptr, C.byref(blk), stp)
+                                    else:
+                                        fn2(M.ptr, nr, lens[0], M.ptr, nc, lens[0], nd, O.ptr, C.byref(blk), stp)
+                                    calls += 1
+                                    O.free()
             else:
                 t = cfg["t"]
                 cvals = [float(x) for p in cfg["avg"] for x in p]
